@@ -263,6 +263,17 @@ def tga_seeds(r, thorough):
                 px = [r.choice(base) if r.chance(2, 3) else rnd_bytes(r, nb) for _ in range(w * h)]
                 S.append(("tgarle%d%s" % (bpp, "o" if origin else ""), tga_file(w, h, bpp, rle=True, origin=origin, data=tga_rle_encode(r, px, nb)), dst, (w, h)))
         S.append(("tga24id", tga_file(w, h, 24, data=rnd_bytes(r, w * h * 3), idlen=5), "rgb8", (w, h)))
+    # long packets (up to 128 pixels, i.e. byte counts beyond 255) that cross row ends and reach the end of the image exactly
+    for (w, h) in ((100, 2), (130, 1), (64, 3), (86, 2)):
+        for bpp in (24, 32):
+            nb = bpp // 8; dst = "rgb8" if bpp == 24 else "rgba8"; n = w * h
+            one = rnd_bytes(r, nb)
+            runs, left = bytearray(), n
+            while left: k = min(128, left); runs.append(0x80 | (k - 1)); runs += one; left -= k
+            S.append(("tgarle%d-longrun" % bpp, tga_file(w, h, bpp, rle=True, data=bytes(runs)), dst, (w, h)))
+            raws, left = bytearray(), n
+            while left: k = min(128, left); raws.append(k - 1); raws += rnd_bytes(r, k * nb); left -= k
+            S.append(("tgarle%d-longraw" % bpp, tga_file(w, h, bpp, rle=True, origin=True, data=bytes(raws)), dst, (w, h)))
     # the fixed overrun witness and relatives
     S.append(("tgarle-overrun", tga_file(2, 2, 24, rle=True, data=bytes([0xFF, 1, 2, 3])), "rgb8", (2, 2)))
     S.append(("tgarle-exact", tga_file(2, 2, 24, rle=True, data=bytes([0x83, 1, 2, 3])), "rgb8", (2, 2)))
